@@ -147,6 +147,9 @@ def _clean_fn(fn):
 
 def first_repo_frame(frames):
     for fn, path in frames:
+        # harness frames mention iceoryx2 in their generic arguments (w_ports::bb::execute::<iceoryx2::...>): not repo frames
+        if "/verif/harness/" in path or re.match(r"^<?(w_\w+|vkit)::", fn):
+            continue
         if "iceoryx2" in fn or "/repo/" in path:
             if "verif" in fn:
                 continue
